@@ -324,6 +324,62 @@ Proof.
   intros b Hin. rewrite forallb_forall in Hb. specialize (Hb b Hin). apply Z.ltb_lt in Hb. now rewrite built_count_tree in Hb.
 Qed.
 
+(* ------------------------------------------------------------------ *)
+(* the count part of Create as a function: its result is tabulated       *)
+
+Lemma geti_set_same x f z : geti (r_val (set_int x f z)) f = z.
+Proof. unfold set_int, geti. cbn [r_val lookup]. now rewrite String.eqb_refl. Qed.
+
+Lemma geti_set_other x f g z : String.eqb f g = false -> geti (r_val (set_int x g z)) f = geti (r_val x) f.
+Proof. intros H. unfold set_int, geti. cbn [r_val lookup]. now rewrite H. Qed.
+
+Lemma built_count_tabulate b : built_count (tabulate_batch b) = built_count b.
+Proof. reflexivity. Qed.
+
+Lemma tabulate_batch_tabulated b : batch_tabulatedb (tabulate_batch b) = true.
+Proof.
+  unfold batch_tabulatedb. rewrite built_count_tabulate. unfold tabulate_batch. cbn [bt_ctl].
+  rewrite geti_set_same. apply Z.eqb_refl.
+Qed.
+
+Lemma any_adv_tabulate bs : any_adv (map tabulate_batch bs) = any_adv bs.
+Proof. unfold any_adv. induction bs as [|b bs IH]; [reflexivity|]. cbn [map existsb]. now rewrite IH. Qed.
+
+Lemma forallb_adv_tabulate bs :
+  forallb (fun b => is_adv (bt_hdr b)) (map tabulate_batch bs) = forallb (fun b => is_adv (bt_hdr b)) bs.
+Proof. induction bs as [|b bs IH]; [reflexivity|]. cbn [map forallb]. now rewrite IH. Qed.
+
+Lemma all_batches_tabulate f : all_batches (tabulate f) = map tabulate_batch (all_batches f).
+Proof. unfold all_batches, tabulate. cbn [fl_batches fl_iat]. now rewrite map_app. Qed.
+
+Lemma adv_only_tabulate f : adv_only (tabulate f) = adv_only f.
+Proof. unfold adv_only, tabulate. cbn [fl_batches]. now rewrite any_adv_tabulate, forallb_adv_tabulate. Qed.
+
+Lemma adv_no_iat_tabulate f : adv_no_iat (tabulate f) = adv_no_iat f.
+Proof.
+  unfold adv_no_iat, tabulate. cbn [fl_batches fl_iat]. rewrite any_adv_tabulate. now destruct (fl_iat f).
+Qed.
+
+Lemma created_control_tabulate f :
+  created_control (tabulate f)
+  = created_control (mkFil (fl_hdr f) (map tabulate_batch (fl_batches f)) (map tabulate_batch (fl_iat f)) (fl_ctl f)).
+Proof. reflexivity. Qed.
+
+(* running the count part of Create yields a tabulated file (whenever createFileADV does not refuse it) *)
+Theorem tabulate_tabulated f : adv_only f = true -> tabulatedb (tabulate f) = true.
+Proof.
+  intros Hadv. unfold tabulatedb. apply andb_true_intro. split.
+  - rewrite all_batches_tabulate. apply forallb_forall. intros b Hb. apply in_map_iff in Hb as (b0 & <- & _).
+    apply tabulate_batch_tabulated.
+  - unfold file_tabulatedb. cbv zeta. rewrite adv_only_tabulate, Hadv, created_control_tabulate.
+    set (c := created_control _). unfold tabulate. cbn [fl_ctl]. fold c.
+    rewrite geti_set_same.
+    rewrite (geti_set_other _ "BlockCount" "EntryAddendaCount") by reflexivity. rewrite geti_set_same.
+    rewrite (geti_set_other _ "BatchCount" "EntryAddendaCount") by reflexivity.
+    rewrite (geti_set_other _ "BatchCount" "BlockCount") by reflexivity. rewrite geti_set_same.
+    now rewrite !Z.eqb_refl.
+Qed.
+
 Lemma map_eq_pairs {A B C D} (g1 : A -> C) (h1 : B -> C) (g2 : A -> D) (h2 : B -> D) l1 : forall l2,
   map g1 l1 = map h1 l2 -> map g2 l1 = map h2 l2 ->
   forall x, In x l1 -> exists y, In y l2 /\ g1 x = h1 y /\ g2 x = h2 y.
@@ -610,6 +666,40 @@ Proof.
   assert (El : length (write_file_padded T f) = length (write_file T f) + (10 - r) mod 10).
   { rewrite E at 1. now rewrite app_length, repeat_length. }
   repeat split; [exact E|exact El|]. rewrite C3, El. reflexivity.
+Qed.
+
+(* Create changes no record type *)
+Lemma rec_is_set t x f z : rec_is T t (set_int x f z) = rec_is T t x.
+Proof. reflexivity. Qed.
+
+Lemma batch_shape_tabulate b : batch_shape T (tabulate_batch b) = batch_shape T b.
+Proof. reflexivity. Qed.
+
+Lemma shape_ok_tabulate f : shape_ok T (tabulate f) = shape_ok T f.
+Proof.
+  unfold shape_ok, tabulate. cbn [fl_hdr fl_batches fl_iat fl_ctl].
+  rewrite !forallb_map'. reflexivity.
+Qed.
+
+(* the design's statement: whatever the tree, after Create the control records declare what is written *)
+Theorem create_counts_tabulate f g :
+  create_counts_of f = Some g ->
+  shape_ok T f = true -> adv_no_iat f = true -> all_file (rec_fitsb T) g = true -> count_boundsb g = true ->
+  let ls := write_file_padded T g in
+  let fc := last (write_file T g) [] in
+  fc_batch_count fc = Z.of_nat (batch_header_lines ls)
+  /\ fc_entry_count fc = Z.of_nat (entry_addenda_lines ls)
+  /\ (fc_block_count fc * 10)%Z = Z.of_nat (length ls)
+  /\ length (batch_segments ls) = length (all_batches f)
+  /\ Forall (fun s => bc_entry_count (snd s) = Z.of_nat (entry_addenda_lines (fst s))) (batch_segments ls).
+Proof.
+  unfold create_counts_of. destruct (adv_only f) eqn:Hadv; [|discriminate]. intros E. injection E as <-.
+  intros Hshape Hno Hfit Hb.
+  assert (Hlen : length (all_batches f) = length (all_batches (tabulate f))) by (now rewrite all_batches_tabulate, map_length).
+  rewrite Hlen. apply create_counts; try assumption.
+  - now rewrite shape_ok_tabulate.
+  - now apply tabulate_tabulated.
+  - now rewrite adv_no_iat_tabulate.
 Qed.
 
 End Tree.
